@@ -58,6 +58,47 @@ class GView:
             g.max_index = i
         return self._d[self._lo + i]
 
+    # --- the rest of the memoryview surface a reader may legitimately rely on
+    @property
+    def obj(self):
+        return self._d  # like memoryview.obj: the *base* buffer, not the window
+
+    @property
+    def nbytes(self):
+        return self._hi - self._lo
+
+    readonly = True
+    itemsize = 1
+    ndim = 1
+    format = "B"
+
+    def tolist(self):
+        return list(self._d[self._lo:self._hi])
+
+    def hex(self, *a):
+        return self._d[self._lo:self._hi].hex(*a)
+
+    def __contains__(self, x):
+        return x in self._d[self._lo:self._hi]
+
+    def index(self, *a):
+        return self._d[self._lo:self._hi].index(*a)
+
+    def count(self, *a):
+        return self._d[self._lo:self._hi].count(*a)
+
+    def release(self):
+        pass
+
+    def toreadonly(self):
+        return self
+
+    def __enter__(self):
+        return self
+
+    def __exit__(self, *a):
+        return False
+
     def __bytes__(self):
         return self._d[self._lo:self._hi]
 
